@@ -8,9 +8,8 @@ open WR WR.Sexp WR.C03
 namespace Driver.C03
 
 def getSel : Sexp → Option Sel
-  | .list [.atom "s", a, b, c, ok, amp, bare] => do
-    some { spec := ((← a.asNat?), (← b.asNat?), (← c.asNat?)), ok := (← ok.asBool?),
-           amp := (← amp.asBool?), bare := (← bare.asBool?) }
+  | .list [.atom "s", a, b, c, ok, amp] => do
+    some { spec := ((← a.asNat?), (← b.asNat?), (← c.asNat?)), ok := (← ok.asBool?), amp := (← amp.asBool?) }
   | _ => none
 
 def getSels : Sexp → Option (List Sel)
@@ -32,25 +31,32 @@ def getMedia : Sexp → Option (List Medium)
   | .list (.atom "m" :: ms) => ms.mapM getMedium
   | _ => none
 
-/- parsing only (wire format → Doc); the recursion follows the s-expression -/
-partial def getBody : Sexp → Option Body
-  | .list (.atom "nested" :: sels :: body) => do some (.nested (← getSels sels) (← body.mapM getBody))
-  | x => do some (.decl (← getDecl x))
+/- parsing only (wire format → Doc); the recursion follows the s-expression, `fuel` bounds the
+   nesting depth (a request nested deeper than `maxDepth` is answered `bad-op`, never mis-read) -/
+def getBody : Nat → Sexp → Option Body
+  | 0, _ => none
+  | fuel + 1, .list (.atom "nested" :: sels :: body) => do
+    some (.nested (← getSels sels) (← body.mapM (getBody fuel)))
+  | _ + 1, x => do some (.decl (← getDecl x))
 
-partial def getItem : Sexp → Option Item
-  | .list (.atom "rule" :: sels :: body) => do some (.rule (← getSels sels) (← body.mapM getBody))
-  | .list (.atom "media" :: m :: items) => do some (.media (← getMedia m) (← items.mapM getItem))
-  | .list (.atom "import" :: m :: items) => do some (.imp (← getMedia m) (← items.mapM getItem))
-  | .list [.atom "page"] => some .page
-  | .list [.atom "junk"] => some .junk
-  | _ => none
+def getItem : Nat → Sexp → Option Item
+  | 0, _ => none
+  | fuel + 1, .list (.atom "rule" :: sels :: body) => do
+    some (.rule (← getSels sels) (← body.mapM (getBody fuel)))
+  | fuel + 1, .list (.atom "media" :: m :: items) => do some (.media (← getMedia m) (← items.mapM (getItem fuel)))
+  | fuel + 1, .list (.atom "import" :: m :: items) => do some (.imp (← getMedia m) (← items.mapM (getItem fuel)))
+  | _ + 1, .list [.atom "page"] => some .page
+  | _ + 1, .list [.atom "junk"] => some .junk
+  | _ + 1, _ => none
+
+def maxDepth : Nat := 64
 
 def getAuthor : Sexp → Option AuthorSheet
-  | .list (.atom "sheet" :: m :: items) => do some { media := (← getMedia m), items := (← items.mapM getItem) }
+  | .list (.atom "sheet" :: m :: items) => do some { media := (← getMedia m), items := (← items.mapM (getItem maxDepth)) }
   | _ => none
 
 def getUser : Sexp → Option (List Item)
-  | .list (.atom "sheet" :: items) => items.mapM getItem
+  | .list (.atom "sheet" :: items) => items.mapM (getItem maxDepth)
   | _ => none
 
 def getDoc : Sexp → Option Doc
@@ -58,7 +64,7 @@ def getDoc : Sexp → Option Doc
       .list (.atom "style" :: sa), .list (.atom "hint" :: ha), .list (.atom "ua" :: ua),
       .list (.atom "ph" :: ph), .list (.atom "author" :: au), .list (.atom "user" :: us)] => do
     some { dev := (← getMedium dev), hints := (← h.asBool?), styleAttr := (← sa.mapM getDecl),
-           hintAttr := (← ha.mapM getDecl), ua := (← ua.mapM getItem), ph := (← ph.mapM getItem),
+           hintAttr := (← ha.mapM getDecl), ua := (← ua.mapM (getItem maxDepth)), ph := (← ph.mapM (getItem maxDepth)),
            author := (← au.mapM getAuthor), user := (← us.mapM getUser) }
   | _ => none
 
@@ -76,7 +82,7 @@ def putOcc (o : Spec.Occ) : Sexp :=
   .list [putOrigin o.origin, ofBool o.imp, putKind o.kind, ofNat o.spec.1, ofNat o.spec.2.1, ofNat o.spec.2.2, ofNat o.val]
 
 def putIns (w : Model.WValue) : Sexp :=
-  .list [ofNat w.weight.precedence, ofNat w.weight.specificity.1, ofNat w.weight.specificity.2.1,
+  .list [ofNat w.weight.precedence, ofBool w.weight.styleAttr, ofNat w.weight.specificity.1, ofNat w.weight.specificity.2.1,
     ofNat w.weight.specificity.2.2, ofNat w.val]
 
 def handle (req : Sexp) : Sexp :=
